@@ -41,6 +41,14 @@ def traditional_clause(cl, rng, n, replay):
             h, f, A = gen_object(rng)
             h.meta["processing_method"] = "traditional"
             hist = apply_history(rng, h, f)
+            if rng.random() < 0.35:
+                # peak-search filters handed over in a dictionary the caller keeps using (edits it, re-uses it for another object) afterwards:
+                # the object and its file must keep the filters the peaks were found with
+                kw = {"prominence": float(rng.choice([0.05, 0.2]))}
+                h.update_peaks_bounded(search_range_in_hz=h._search_range_in_hz, find_peaks_kwargs=kw)
+                kw["prominence"] = 50.0
+                kw["width"] = 3
+                hist.append(("filters-then-caller-edits-its-dict",))
             # a window without a peak in the range may still be an accepted window (its peak simply does not count): e.g. after manual re-acceptance
             nopeak = np.isnan(h._main_peak_frq)
             if nopeak.any() and rng.random() < 0.6:
@@ -85,6 +93,8 @@ def azimuthal_clause(cl, rng, n, replay):
             if rng.random() < 0.5:
                 h.azimuths = [float(a) + float(rng.choice([0.0, 0.5, 0.25])) for a in h.azimuths]
             h.meta["processing_method"] = "azimuthal"
+            if len(h.azimuths) > 1 and rng.random() < 0.6:
+                h.azimuths = [float(a) for a in rng.permutation(h.azimuths)]       # azimuths need not be given in ascending order
             hist = []
             if rng.random() < 0.7:
                 r = (None if rng.random() < 0.5 else float(rng.uniform(0.2, 0.8)), None if rng.random() < 0.5 else float(rng.uniform(8, 20)))
